@@ -307,3 +307,43 @@ func stratifiedCorpus(stmts []corpusStmt, per, maxLen int) []string {
 	}
 	return out
 }
+
+// shortStatementShapes returns one corpus statement per distinct SHAPE among the short statements (at most maxTok tokens): the
+// statement's words upper-cased, with numbers, strings, quoted identifiers and the trailing (possibly qualified) name abstracted.
+// Utility statements (SYSTEM …, SHOW …, KILL …, …) are parsed from word PHRASES rather than from keyword tokens, so the
+// first-keywords strata of stratifiedCorpus put SYSTEM LOAD PRIMARY KEY t and SYSTEM UNLOAD PRIMARY KEY into one stratum.
+func shortStatementShapes(stmts []corpusStmt, maxTok int) []string {
+	seen := map[string]bool{}
+	var out []string
+	for _, s := range stmts {
+		if !s.Enabled || len(s.Text) > 400 {
+			continue
+		}
+		sp, ok := tokenSpans(s.Text)
+		for ok && len(sp) > 0 && sp[len(sp)-1].Tok == token.SEMICOLON {
+			sp = sp[:len(sp)-1]
+		}
+		if !ok || len(sp) < 2 || len(sp) > maxTok {
+			continue
+		}
+		var sb strings.Builder
+		for i, t := range sp {
+			w := strings.ToUpper(s.Text[t.Start:t.End])
+			nameLike := t.Tok == token.IDENT && (i == len(sp)-1 || sp[i+1].Tok == token.DOT || (i > 0 && sp[i-1].Tok == token.DOT))
+			switch {
+			case t.Tok == token.NUMBER:
+				w = "0"
+			case t.Tok == token.STRING:
+				w = "'s'"
+			case t.Tok == token.IDENT && t.Quoted, nameLike && i > 1:
+				w = "n"
+			}
+			sb.WriteString(w + " ")
+		}
+		if k := sb.String(); !seen[k] {
+			seen[k] = true
+			out = append(out, s.Text)
+		}
+	}
+	return out
+}
